@@ -29,6 +29,7 @@ def declare(rep):
     rep.rule("C11.bounded", "refine_mesh returns after a bounded number of operations: its work loop is bounded by the operation counter, every pass pops an edge first, every call that can refill the work list is paired with counter++, "
              "and no counted for-loop of the refinement closure changes its own induction variable in the body", floor=3)
     rep.rule("C11.triangle-score", "get_triangle_score measures the three distinct edges of the triangle and returns, in every branch, an edge whose measured length is maximal under the comparisons that lead to that branch (decided over all weak orderings of the three lengths)", floor=4)
+    rep.rule("C11.worklist-fresh", "refine_mesh copies the cell's edge set into its work list after the last operation that can change that edge set (the swap stage): a copy taken earlier names edges that no longer exist, which are then split / merged", floor=1)
     rep.rule("C11.selective", "split only if l2 > l_max^2, merge only if l2 < l_min^2 and can_be_merged, swap only if score < threshold; thresholds are squares of the constructor arguments", floor=5)
 
 
@@ -65,10 +66,42 @@ def vec(ev, v):
     return [sp.sympify(x) for x in ev.record_of(v).f.values()]
 
 
+def worklist_fresh(rep, prog):
+    from .. import effects as F
+    rm = prog.fn("local_mesh_refiner::refine_mesh")
+    fi = prog.index(rm)
+    E = F.Effects(prog)
+    copies = [v for v in walk(rm["body"]) if v.get("k") == "Var" and isinstance(v.get("init"), dict) and any(is_call(x) and x.get("callee") == "cell::get_edge_set" for x in walk(v["init"])) and not (v.get("t") or "").rstrip().endswith("&")]
+    if not copies:
+        raise AnalysisBroken("refine_mesh: copy of the cell's edge set (work list) not found")
+    for v in copies:
+        uses = [x for x in walk(rm["body"]) if x.get("k") == "DeclRefExpr" and (x.get("ref") or {}).get("did") == v["did"]]
+        loops = [fi.enclosing(u, ("WhileStmt", "ForStmt", "DoStmt")) for u in uses]
+        loops = [l for l in loops if l is not None]
+        first_loop = min((fi.order[id(l)] for l in loops), default=None)
+        if first_loop is None:
+            continue
+        stale = []
+        for c in walk(rm["body"]):
+            if not is_call(c) or not (fi.order[id(v)] < fi.order[id(c)] < first_loop):
+                continue
+            for tk in prog.call_targets(c):
+                if any("edge_set_" in (p_[-1] if p_ else "") for (r_, p_, s_, g_) in E.writes.get(tk, ()) if isinstance(p_, tuple) and p_):
+                    stale.append(c)
+                    break
+        if stale:
+            rep.violation("C11.worklist-fresh", prog, rm, v, "work list copied before %s" % stale[0].get("callee", "?").split("::")[-1],
+                          "refine_mesh copies the edge set into '%s' at line %s, then calls %s (line %s), which may swap edges (it writes cell::edge_set_), and only then walks the copy: an edge that the swap removed is still in the work list; if it is longer than l_max it is 'split' - a node is inserted at the midpoint of an edge that no longer exists and the swap is undone on a mesh that was already within the band"
+                          % (v.get("name"), v.get("l"), stale[0].get("callee"), stale[0].get("l")))
+        else:
+            rep.ok("C11.worklist-fresh", prog, rm, v, "'%s' is copied after every call that can change the edge set and before the loop that walks it" % v.get("name"))
+
+
 def run(rep, prog, tier):
     if not rep.rules:
         declare(rep)
     cm, dm = prog.config
+    worklist_fresh(rep, prog)
     bounded(rep, prog)
     triangle_score(rep, prog)
     split = prog.fn("local_mesh_refiner::split_edge")
